@@ -48,10 +48,31 @@ def run(tier, seed):
     path = os.path.join(wd, "cases.ndjson")
     vlib.write_ndjson(path, cases)
     hashers = "blake3_256,rp64_256,rp62_248" if tier == "quick" else "blake3_256,blake3_192,sha3_256,rp62_248,rp64_256,rpjive64_256"
-    rc, out, err = vlib.run_harness(exe, ["merkle", "--scenarios", path, "--hashers", hashers])
-    if rc != 0:
-        raise vlib.ToolError("merkle harness rc=%s: %s" % (rc, err))
-    res = json.loads(out)
+    # one harness process per hasher and per shard of the cases (the replay is single-threaded)
+    nsh = 1 if len(cases) < 5000 else 3
+    jobs = []
+    for k in range(nsh):
+        pk = os.path.join(wd, "cases_%d.ndjson" % k)
+        vlib.write_ndjson(pk, cases[k::nsh])
+        jobs += [(pk, h) for h in hashers.split(",")]
+
+    def one(job):
+        rc, out, err = vlib.run_harness(exe, ["merkle", "--scenarios", job[0], "--hashers", job[1]], timeout=6000)
+        if rc != 0:
+            raise vlib.ToolError("merkle harness rc=%s: %s" % (rc, err))
+        return json.loads(out)
+
+    parts = vlib.parallel(one, jobs, max_workers=14)
+    res = {"cases": len(cases), "honest": sum(x["honest"] for x in parts), "mutated_batch": sum(x["mutated_batch"] for x in parts),
+           "mutated_single": sum(x["mutated_single"] for x in parts), "spec_drift": sum(x["spec_drift"] for x in parts), "failures": []}
+    seen = {}
+    for x in parts:
+        for f in x["failures"]:
+            if f["key"] in seen:
+                seen[f["key"]]["count"] += f["count"]
+            else:
+                seen[f["key"]] = f
+                res["failures"].append(f)
     for f in res["failures"]:
         v.violation(f["key"], f["what"] + " (%d occurrences)" % f["count"], f["replay"])
     if res["spec_drift"]:
